@@ -343,4 +343,62 @@ theorem F9_unfixed_violates :
   have := (h k1).mp (by rw [h2]; simp [replayFrom, applyEv])
   rw [h1] at this; simp at this
 
+/-! ## 5. the comparison function alone keeps records apart, whatever the hash does
+
+The table is exact because of TWO facts: nodes are filed under a hash, and `key_entry_cmp` answers 0
+only for the same (AS, SKI, key, source).  The theorems above hold for every hash value a record
+might be filed under (`search_iff_mem` quantifies over `hash` and over the compare function), so the
+second fact must not lean on the first: two records that differ in the AS number only are different
+entries even when their hashes agree in all 32 bits.  (harness: `cmp` calls the static
+`key_entry_cmp` directly, `fadd/fget/frm` drive the real tommy_hashlin under a CHOSEN hash.) -/
+
+/-- `key_entry_cmp(arg, obj) == 0` exactly when the two entries agree in all four fields -/
+theorem cmp_iff_eq (a b : SpkiRec) :
+    SpkiTable.cmp a b = true ↔ (b.asn = a.asn ∧ b.ski = a.ski ∧ b.spki = a.spki ∧ b.src = a.src) := by
+  unfold SpkiTable.cmp
+  constructor
+  · intro h
+    have : b = a := by simpa using h
+    subst this
+    exact ⟨rfl, rfl, rfl, rfl⟩
+  · rintro ⟨h1, h2, h3, h4⟩
+    cases a; cases b
+    simp only at h1 h2 h3 h4
+    subst h1; subst h2; subst h3; subst h4
+    simp
+
+/-- Under ANY hash value — in particular one shared by other records (a full collision) — the search
+    with `key_entry_cmp` finds a record iff exactly that record is stored under that hash, and what
+    it returns is that record: neighbours in the chain that differ in one field are never taken for it. -/
+theorem collision_kept_apart (h : Hashlin SpkiRec) (iv : h.Inv) (r : SpkiRec) (hash : Nat) :
+    ((h.search (SpkiTable.cmp r) hash).isSome ↔ h.Mem ⟨hash, r⟩) ∧
+    (∀ d, h.search (SpkiTable.cmp r) hash = some d → d = r) := by
+  have hs := search_iff_mem h iv (SpkiTable.cmp r) hash
+  constructor
+  · rw [hs.1]
+    constructor
+    · rintro ⟨x, hm, hk, hc⟩
+      have hd : x.data = r := by simpa [SpkiTable.cmp] using hc
+      cases x
+      simp only at hk hd
+      subst hk; subst hd
+      exact hm
+    · intro hm
+      exact ⟨⟨hash, r⟩, hm, rfl, by simp [SpkiTable.cmp]⟩
+  · intro d hd
+    have := (hs.2.1 d hd).2
+    simpa [SpkiTable.cmp] using this
+
+/-- two records that differ in the AS number only, filed under one and the same hash: both stored,
+    each found as itself, the absent third one (again differing in the AS only) not found, and
+    removing the absent one removes nothing -/
+example :
+    let a : SpkiRec := ⟨65001, 0xaa, 0xbb, 1⟩
+    let b : SpkiRec := ⟨65002, 0xaa, 0xbb, 1⟩
+    let c : SpkiRec := ⟨65003, 0xaa, 0xbb, 1⟩
+    let h := ((Hashlin.init : Hashlin SpkiRec).insert a 77).insert b 77
+    h.search (SpkiTable.cmp a) 77 = some a ∧ h.search (SpkiTable.cmp b) 77 = some b ∧
+    h.search (SpkiTable.cmp c) 77 = none ∧ (h.remove (SpkiTable.cmp c) 77).2 = none ∧
+    (SpkiTable.cmp a b = false) := by decide +kernel
+
 end Rtr.C10
